@@ -44,8 +44,9 @@ VARIABLES
   ver,         \* ghost: number of swaps so far
   seen, floor, \* ghost per reader: version observed by its last lookup; highest version any lookup had completed with when it began
   maxDone,     \* ghost: highest version a completed lookup has observed
-  up           \* the process is running
-vars == <<origin, final, liveDoc, stage, aside, tmpfile, loaded, wlock, rlock, lpc, kind, rpc, cursor, fetched, runs, ver, seen, floor, maxDone, up>>
+  up,          \* the process is running
+  closed       \* the instance was cleaned up (Repository.Close) while the process keeps running; a run in flight goes on
+vars == <<origin, final, liveDoc, stage, aside, tmpfile, loaded, wlock, rlock, lpc, kind, rpc, cursor, fetched, runs, ver, seen, floor, maxDone, up, closed>>
 
 EmptyDir == [exists |-> TRUE, keys |-> {}, meta |-> FALSE, open |-> TRUE]
 
@@ -56,13 +57,13 @@ Init == /\ origin \in {o \in Origins : o.kind = "good"}
         /\ lpc = "idle" /\ kind = "first" /\ rpc = [r \in Readers |-> "idle"]
         /\ cursor = {} /\ fetched = NoFetch /\ runs = 0
         /\ ver = 0 /\ seen = [r \in Readers |-> 0] /\ floor = [r \in Readers |-> 0] /\ maxDone = 0
-        /\ up = TRUE
+        /\ up = TRUE /\ closed = FALSE
 
 Emit(op) == Export => PrintT(<<"EDGE", ToJson([from |-> [origin |-> origin, final |-> final, liveDoc |-> liveDoc, stage |-> stage, aside |-> aside, tmpfile |-> tmpfile, loaded |-> loaded,
-                                                         wlock |-> wlock, lpc |-> lpc, kind |-> kind, fetched |-> fetched, cursor |-> cursor, runs |-> runs, up |-> up],
+                                                         wlock |-> wlock, lpc |-> lpc, kind |-> kind, fetched |-> fetched, cursor |-> cursor, runs |-> runs, up |-> up, closed |-> closed],
                                               op |-> op,
                                               to |-> [origin |-> origin', final |-> final', liveDoc |-> liveDoc', stage |-> stage', aside |-> aside', tmpfile |-> tmpfile', loaded |-> loaded',
-                                                       wlock |-> wlock', lpc |-> lpc', kind |-> kind', fetched |-> fetched', cursor |-> cursor', runs |-> runs', up |-> up'],
+                                                       wlock |-> wlock', lpc |-> lpc', kind |-> kind', fetched |-> fetched', cursor |-> cursor', runs |-> runs', up |-> up', closed |-> closed'],
                                               expect |-> [loaded |-> loaded', live |-> liveDoc', temps |-> (tmpfile' \/ stage'.some \/ aside'), finalExists |-> final'.exists]])>>)
 
 Ghosts == <<ver, seen, floor, maxDone>>
@@ -70,22 +71,22 @@ RdVars == <<rlock, rpc>>
 
 Publish == /\ up /\ lpc = "idle" /\ runs < MaxRuns
            /\ \E o \in Origins : origin' = o /\ o # origin
-           /\ UNCHANGED <<final, liveDoc, stage, aside, tmpfile, loaded, wlock, lpc, kind, cursor, fetched, runs, up>> /\ UNCHANGED Ghosts /\ UNCHANGED RdVars
+           /\ UNCHANGED <<final, liveDoc, stage, aside, tmpfile, loaded, wlock, lpc, kind, cursor, fetched, runs, up, closed>> /\ UNCHANGED Ghosts /\ UNCHANGED RdVars
            /\ Emit(<<"publish", origin'>>)
 
 (* ---- loader / refresher ---------------------------------------------------------------------- *)
 L(next) == lpc' = next
-Same(vs) == UNCHANGED vs
+Same(vs) == UNCHANGED vs /\ UNCHANGED closed
 
 \* start of a run: a first load takes the entry write lock for its whole duration
-LStart == /\ up /\ lpc = "idle" /\ runs < MaxRuns /\ runs' = runs + 1
+LStart == /\ up /\ ~closed /\ lpc = "idle" /\ runs < MaxRuns /\ runs' = runs + 1
           /\ IF loaded THEN kind' = "refresh" /\ wlock' = wlock
              ELSE kind' = "first" /\ wlock = "none" /\ rlock = {} /\ wlock' = "ldr"
           /\ tmpfile' = TRUE /\ L("tmp")
           /\ Same(<<origin, final, liveDoc, stage, aside, loaded, cursor, fetched, up>>) /\ UNCHANGED Ghosts /\ UNCHANGED RdVars
           /\ Emit(<<"start">>)
 \* refresh only: read locations and stored signer under the read lock (collapsed to one step: needs no writer)
-LInfo == /\ up /\ lpc = "tmp" /\ kind = "refresh" /\ wlock = "none" /\ L("info")
+LInfo == /\ up /\ lpc = "tmp" /\ kind = "refresh" /\ wlock = "none" /\ (IF closed THEN L("failed") ELSE L("info"))   \* (a closed store cannot be read)
          /\ Same(<<origin, final, liveDoc, stage, aside, tmpfile, loaded, wlock, kind, cursor, fetched, runs, up>>) /\ UNCHANGED Ghosts /\ UNCHANGED RdVars
          /\ Emit(<<"info">>)
 \* the transfer is under way: the download file holds a prefix of the body (a crash point of its own; an origin that is down
@@ -121,12 +122,16 @@ LLock == /\ up /\ lpc = "verified"
          /\ Same(<<origin, final, liveDoc, stage, aside, tmpfile, loaded, kind, cursor, fetched, runs, up>>) /\ UNCHANGED Ghosts /\ UNCHANGED RdVars
          /\ Emit(<<"lock">>)
 Swapped == /\ ver' = ver + 1 /\ Same(<<seen, floor, maxDone>>)
-LMapSwap == /\ up /\ ~Disk /\ lpc = "locked"
+\* the swap of an instance that was closed meanwhile fails (the live store is closed): nothing is moved, nothing reopened
+LSwapClosed == /\ up /\ closed /\ lpc = "locked" /\ L("failed") /\ wlock' = "none"
+               /\ Same(<<origin, final, liveDoc, stage, aside, tmpfile, loaded, kind, cursor, fetched, runs, up>>) /\ UNCHANGED Ghosts /\ UNCHANGED RdVars
+               /\ Emit(<<"swapClosed">>)
+LMapSwap == /\ up /\ ~closed /\ ~Disk /\ lpc = "locked"
             /\ final' = [exists |-> TRUE, keys |-> stage.keys, meta |-> TRUE, open |-> TRUE] /\ liveDoc' = DocOf(fetched.keys) /\ stage' = NoStage
             /\ L("replaced") /\ Swapped
             /\ Same(<<origin, aside, tmpfile, loaded, wlock, kind, cursor, fetched, runs, up>>) /\ UNCHANGED RdVars
             /\ Emit(<<"mapswap">>)
-LCloseOld == /\ up /\ Disk /\ lpc = "locked" /\ final' = [final EXCEPT !.open = FALSE] /\ L("closedOld")
+LCloseOld == /\ up /\ ~closed /\ Disk /\ lpc = "locked" /\ final' = [final EXCEPT !.open = FALSE] /\ L("closedOld")
              /\ Same(<<origin, liveDoc, stage, aside, tmpfile, loaded, wlock, kind, cursor, fetched, runs, up>>) /\ UNCHANGED Ghosts /\ UNCHANGED RdVars
              /\ Emit(<<"closeOld">>)
 LCloseNew == /\ up /\ lpc = "closedOld" /\ L("closedNew")
@@ -159,7 +164,7 @@ LDone == /\ up /\ lpc \in {"unlocked", "done"} /\ tmpfile' = FALSE /\ L("idle") 
          /\ Emit(<<"done">>)
 
 (* ---- readers: checkCrl under the entry read lock ------------------------------------------------- *)
-RBegin(r) == /\ up /\ rpc[r] = "idle" /\ wlock = "none" /\ rlock' = rlock \cup {r} /\ rpc' = [rpc EXCEPT ![r] = "locked"]
+RBegin(r) == /\ up /\ ~closed /\ rpc[r] = "idle" /\ wlock = "none" /\ rlock' = rlock \cup {r} /\ rpc' = [rpc EXCEPT ![r] = "locked"]
              /\ floor' = [floor EXCEPT ![r] = maxDone]
              /\ Same(<<origin, final, liveDoc, stage, aside, tmpfile, loaded, wlock, lpc, kind, cursor, fetched, runs, ver, seen, maxDone, up>>)
 RLookup(r) == /\ up /\ rpc[r] = "locked" /\ rpc' = [rpc EXCEPT ![r] = "got"]
@@ -170,7 +175,7 @@ REnd(r) == /\ up /\ rpc[r] = "got" /\ rlock' = rlock \ {r} /\ rpc' = [rpc EXCEPT
            /\ Same(<<origin, final, liveDoc, stage, aside, tmpfile, loaded, wlock, lpc, kind, cursor, fetched, runs, ver, seen, floor, up>>)
 
 (* ---- crash and restart (disk only) ----------------------------------------------------------------- *)
-Crash == /\ WithCrash /\ Disk /\ up /\ lpc # "idle" /\ up' = FALSE
+Crash == /\ WithCrash /\ Disk /\ up /\ ~closed /\ lpc # "idle" /\ up' = FALSE
          /\ wlock' = "none" /\ rlock' = {} /\ rpc' = [r \in Readers |-> "idle"] /\ L("idle") /\ loaded' = FALSE
          /\ final' = [final EXCEPT !.open = FALSE] /\ cursor' = {} /\ fetched' = NoFetch
          /\ Same(<<origin, liveDoc, stage, aside, tmpfile, kind, runs>>) /\ UNCHANGED Ghosts
@@ -184,11 +189,27 @@ Restart == /\ ~up /\ up' = TRUE
            /\ Same(<<origin, wlock, rlock, lpc, kind, rpc, cursor, fetched, runs>>) /\ UNCHANGED Ghosts
            /\ Emit(<<"restart">>)
 
-Next == Publish \/ LStart \/ LInfo \/ LFetchBegin \/ LFetch \/ LStage \/ LParse \/ LVerify \/ LLock \/ LMapSwap \/ LCloseOld \/ LCloseNew \/ LMvAside
+(* ---- Cleanup of the instance while a refresh is in flight, and a new instance in the same process ---------- *)
+\* Repository.Close takes every entry's write lock: it waits for a first load (which holds it) and for a swap, not for a refresh
+\* that is still fetching, staging or parsing.  The stores are closed, the entry is gone; the run in flight goes on alone.
+Shutdown == /\ up /\ ~closed /\ kind = "refresh" /\ lpc \in {"tmp", "info", "fetching", "fetched", "staged", "parsed", "verified"}
+            /\ wlock = "none" /\ rlock = {}
+            /\ closed' = TRUE /\ final' = [final EXCEPT !.open = FALSE] /\ loaded' = FALSE
+            /\ UNCHANGED <<origin, liveDoc, stage, aside, tmpfile, wlock, rlock, lpc, kind, rpc, cursor, fetched, runs, up>> /\ UNCHANGED Ghosts
+            /\ Emit(<<"shutdown">>)
+\* Provision of a new instance on the same work_dir once the old run has ended: like Restart, without a process death
+Reprovision == /\ up /\ closed /\ lpc = "idle" /\ closed' = FALSE
+               /\ stage' = NoStage /\ aside' = FALSE /\ tmpfile' = FALSE
+               /\ final' = IF final.exists THEN [final EXCEPT !.open = TRUE] ELSE EmptyDir
+               /\ loaded' = (final.exists /\ final.meta)
+               /\ UNCHANGED <<origin, liveDoc, wlock, rlock, lpc, kind, rpc, cursor, fetched, runs, up>> /\ UNCHANGED Ghosts
+               /\ Emit(<<"reprovision">>)
+
+Next == Publish \/ Shutdown \/ Reprovision \/ LSwapClosed \/ LStart \/ LInfo \/ LFetchBegin \/ LFetch \/ LStage \/ LParse \/ LVerify \/ LLock \/ LMapSwap \/ LCloseOld \/ LCloseNew \/ LMvAside
         \/ LMvNew \/ LRmOld \/ LReopen \/ LUnlock \/ LFail \/ LDone \/ Crash \/ Restart
         \/ \E r \in Readers : RBegin(r) \/ RLookup(r) \/ REnd(r)
 Spec == Init /\ [][Next]_vars
-View == <<origin, final, liveDoc, stage, aside, tmpfile, loaded, wlock, rlock, lpc, kind, rpc, cursor, fetched, runs, up, seen, floor, maxDone, ver>>
+View == <<origin, final, liveDoc, stage, aside, tmpfile, loaded, wlock, rlock, lpc, kind, rpc, cursor, fetched, runs, up, seen, floor, maxDone, ver, closed>>
 
 (* =============================== properties ============================= *)
 \* C08: whenever a reader is inside its critical section of a loaded entry, the live store is open and holds exactly one complete accepted list
@@ -207,5 +228,9 @@ LiveKept  == (up /\ loaded /\ lpc \notin {"movedAside"}) => final.exists
 CrashSafe == (up /\ loaded /\ wlock = "none") => (final.exists /\ final.meta /\ liveDoc.some /\ final.keys = liveDoc.keys)
 \* C12: only accepted documents ever reach the final directory
 OnlyAccepted == final.meta => liveDoc.some
+\* C20: nothing of a closed instance is reopened or replaced by its run in flight: the next instance finds the store as it was left
+ClosedStaysClosed == [][(closed /\ closed') => (final' = final /\ liveDoc' = liveDoc)]_vars
+\* ... and its temporary artefacts are gone when that run has ended
+NoResidueClosed == (up /\ closed /\ lpc = "idle") => (~tmpfile /\ ~stage.some /\ ~aside)
 TypeOK == lpc \in {"idle", "tmp", "info", "fetching", "fetched", "staged", "parsed", "verified", "locked", "closedOld", "closedNew", "movedAside", "movedIn", "removedOld", "reopened", "replaced", "unlocked", "failed", "done"}
 =============================================================================
